@@ -180,20 +180,24 @@ impl DatabaseCheckpoint {
 		// Step 1: Flush all memtables to ensure consistency
 		self.flush_all_memtables()?;
 
-		// Step 2: Get current sequence number from the manifest
-		let sequence_number = {
-			let levels_guard = self.core.level_manifest.read()?;
-			levels_guard.get_last_sequence()
-		};
-
 		// Step 3: Create checkpoint subdirectories
 		let sstables_dir = checkpoint_path.join("sstables");
 		let wal_dir = checkpoint_path.join("wal");
 		fs::create_dir_all(&sstables_dir).map_err(|e| Error::Io(Arc::new(e)))?;
 		fs::create_dir_all(&wal_dir).map_err(|e| Error::Io(Arc::new(e)))?;
 
+		// Steps 2, 4-7b are one cut under the manifest's read lock. A background flush or
+		// compaction installs its tables, rewrites the manifest file and cleans up value-log
+		// files under the write lock: were the lock released between the copies, the manifest
+		// copied later could name tables that were not there when the tables were copied, and
+		// the checkpoint would not open.
+		let levels_guard = self.core.level_manifest.read()?;
+
+		// Step 2: Get current sequence number from the manifest
+		let sequence_number = levels_guard.get_last_sequence();
+
 		// Step 4: Copy all SSTables
-		let (sstable_count, sstables_size) = self.copy_sstables(&sstables_dir)?;
+		let (sstable_count, sstables_size) = self.copy_sstables(&levels_guard, &sstables_dir)?;
 
 		// Step 5: Copy WAL segments
 		self.create_new_wal(&wal_dir)?;
@@ -206,6 +210,8 @@ impl DatabaseCheckpoint {
 
 		// Step 7b: Copy the version index (it is part of the data when versioning is on)
 		let index_size = self.copy_versioned_index(checkpoint_path)?;
+
+		drop(levels_guard);
 
 		// Step 8: Create checkpoint metadata
 		let timestamp = SystemTime::now().duration_since(UNIX_EPOCH).unwrap().as_secs();
@@ -284,8 +290,11 @@ impl DatabaseCheckpoint {
 	}
 
 	/// Copies all SSTables to the checkpoint directory
-	fn copy_sstables(&self, dest_dir: &Path) -> Result<(usize, u64)> {
-		let levels_guard = self.core.level_manifest.read()?;
+	fn copy_sstables(
+		&self,
+		levels_guard: &crate::levels::LevelManifest,
+		dest_dir: &Path,
+	) -> Result<(usize, u64)> {
 		let mut total_size = 0u64;
 		let mut count = 0usize;
 
